@@ -91,10 +91,11 @@ def worker(k, q, out, tier, lock):
 
 def main():
     args = sys.argv[1:]
-    slots, tier, out, items = 3, "quick", "/tmp/mutresults.jsonl", []
+    slots, tier, out, items, first = 3, "quick", "/tmp/mutresults.jsonl", [], 0
     i = 0
     while i < len(args):
         if args[i] == "--slots": slots = int(args[i + 1]); i += 2
+        elif args[i] == "--first-slot": first = int(args[i + 1]); i += 2
         elif args[i] == "--tier": tier = args[i + 1]; i += 2
         elif args[i] == "--out": out = args[i + 1]; i += 2
         elif args[i] == "--cleanup":
@@ -112,7 +113,7 @@ def main():
         props = props.split(",") if props else (MUTANTS[name][3] if name in MUTANTS else [])
         q.put((name, props))
     lock = threading.Lock()
-    ts = [threading.Thread(target=worker, args=(k, q, out, tier, lock)) for k in range(slots)]
+    ts = [threading.Thread(target=worker, args=(k, q, out, tier, lock)) for k in range(first, first + slots)]
     for t in ts: t.start()
     for t in ts: t.join()
 
